@@ -760,8 +760,8 @@ Section NewIsDefine.
   (* ---------------------------------------------------------------- the class object *)
 
   (* what is known of the new class while StructMeta.__new__ completes it *)
-  Definition kc (mro : list pystr) : klass :=
-    {| k_name := c; k_is_struct := true; k_bases := s_bases s; k_mro := mro; k_own := pre; k_all := [];
+  Definition kc (mro : list pystr) (ms : members) : klass :=
+    {| k_name := c; k_is_struct := true; k_bases := s_bases s; k_mro := mro; k_own := ms; k_all := [];
        k_required := []; k_sig_req := []; k_sig_opt := []; k_sig_kwargs := false;
        k_additional := s_additional s; k_ignore_none := s_ignore_none s; k_constants := [] |}.
   Definition extra' : pystr -> list (pystr * pyval) := fun o => if pystr_eqb o c then [] else extra o.
@@ -775,7 +775,7 @@ Section NewIsDefine.
       if pystr_eqb o c then
         if pystr_eqb a (s2p "_fields") then fields_at_creation
         else if pystr_eqb a (s2p "__annotations__") then match ann with [] => None | _ => Some (ref annobj) end
-        else match class_attr (kc mro) [] a with
+        else match class_attr (kc mro pre) [] a with
              | Some v => Some v
              | None => if negb (pseudo_attr a) then alist_get (v_fields_of_mro g (tl_str mro)) a else None
              end
@@ -875,7 +875,7 @@ Section NewIsDefine.
     rewrite getattr_ref. unfold created at 1. rewrite pystr_eqb_refl.
     replace (pystr_eqb (s2p "mro()") (s2p "_fields")) with false by reflexivity.
     replace (pystr_eqb (s2p "mro()") (s2p "__annotations__")) with false by reflexivity.
-    replace (class_attr (kc (c :: mro_tail)) [] (s2p "mro()")) with (Some (PList (v_refs (c :: mro_tail)))) by reflexivity.
+    replace (class_attr (kc (c :: mro_tail) pre) [] (s2p "mro()")) with (Some (PList (v_refs (c :: mro_tail)))) by reflexivity.
     cbn [bind].
     pose proof (agree_env_view _ _ _ _ (mh_env g ex an h ms M)) as Hev.
     assert (Hx : forall x, In x mro_tail -> x <> c) by (intros x Hx E; subst; contradiction).
@@ -885,5 +885,185 @@ Section NewIsDefine.
     - intros x Hin. rewrite isinstance_ref, created_other by (apply Hx; exact Hin). rewrite <- isinstance_ref. apply (ev_fieldmeta _ _ _ _ Hev).
     - intros x k r Hin Hk. rewrite <- (ev_subclass _ _ _ _ Hev x k r Hk). unfold obj_issubclass. rewrite !is_ref_ref.
       rewrite created_other by (apply Hx; exact Hin). reflexivity.
+  Qed.
+
+  (* ---------------------------------------------------------------- the heap once the class object exists *)
+
+  Hypothesis Hg_members : forall x kx, find_klass g x = Some kx ->
+    own_plain kx = true /\ forallb (fun n => negb (bad_field_name n)) (map fst (k_own kx)) = true.
+
+  Lemma class_attr_names mro ms ms' a : map fst ms = map fst ms' -> class_attr (kc mro ms) [] a = class_attr (kc mro ms') [] a.
+  Proof.
+    intro H. unfold class_attr, kc. cbn [k_is_struct k_mro k_sig_req k_sig_opt k_sig_kwargs k_own k_name k_additional].
+    rewrite H. replace (alist_has ms a) with (alist_has ms' a) by (rewrite !alist_has_str_in, H; reflexivity). reflexivity.
+  Qed.
+
+  Lemma find_klass_kc mro ms x : find_klass (kc mro ms :: g) x = if pystr_eqb c x then Some (kc mro ms) else find_klass g x.
+  Proof. reflexivity. Qed.
+
+  Lemma own_of_kc mro ms x : x <> c -> own_of (kc mro ms :: g) x = own_of g x.
+  Proof.
+    intro H. unfold own_of. rewrite find_klass_kc. destruct (pystr_eqb c x) eqn:E; [apply pystr_eqb_spec in E; congruence|reflexivity].
+  Qed.
+
+  Lemma own_of_kc_c mro ms : own_of (kc mro ms :: g) c = ms.
+  Proof. unfold own_of. rewrite find_klass_kc, pystr_eqb_refl. reflexivity. Qed.
+
+  (* the fold over an MRO that does not mention the new class does not see it *)
+  Lemma mro_fold_kc {A} (F : pystr -> pystr * member -> A) mro ms l : ~ In c l -> mro_fold F (kc mro ms :: g) l = mro_fold F g l.
+  Proof.
+    intro H. unfold mro_fold. assert (Hr : ~ In c (rev l)) by (intro Hin; apply in_rev in Hin; contradiction).
+    generalize (@nil (pystr * A)). induction (rev l) as [|x t IH]; intro acc; [reflexivity|].
+    cbn [fold_left]. rewrite own_of_kc by (intro; subst; apply Hr; left; reflexivity).
+    apply IH. intro Hin. apply Hr. right. exact Hin.
+  Qed.
+
+  Lemma mro_fold_cons {A} (F : pystr -> pystr * member -> A) mro ms tail : ~ In c tail ->
+    mro_fold F (kc mro ms :: g) (c :: tail) = alist_merge (mro_fold F g tail) (map (fun nm => (fst nm, F c nm)) ms).
+  Proof.
+    intro H. unfold mro_fold at 1. cbn [rev]. rewrite fold_left_app. cbn [fold_left]. rewrite own_of_kc_c.
+    f_equal. apply (mro_fold_kc F mro ms tail H).
+  Qed.
+
+  (* the names the fold collects are member names of classes of the MRO *)
+  Lemma mro_fold_keys {A} (F : pystr -> pystr * member -> A) gg l n :
+    In n (map fst (mro_fold F gg l)) -> exists x, In x l /\ In n (map fst (own_of gg x)).
+  Proof.
+    unfold mro_fold. intro H.
+    assert (Hgen : forall l' acc, In n (map fst (fold_left (fun acc c0 => alist_merge acc (map (fun nm => (fst nm, F c0 nm)) (own_of gg c0))) l' acc)) ->
+              In n (map fst acc) \/ exists x, In x l' /\ In n (map fst (own_of gg x))).
+    { induction l' as [|x t IH]; intros acc Hin; [left; exact Hin|]. cbn [fold_left] in Hin.
+      destruct (IH _ Hin) as [Ha|[y [Hy Hn]]].
+      - rewrite alist_merge_keys in Ha. apply In_merge_names in Ha as [Ha|Ha]; [left; exact Ha|].
+        right. exists x. split; [left; reflexivity|]. rewrite map_map in Ha. exact Ha.
+      - right. exists y. split; [right; exact Hy|exact Hn]. }
+    destruct (Hgen _ _ H) as [[]|[x [Hx Hn]]]. exists x. split; [apply in_rev; exact Hx|exact Hn].
+  Qed.
+
+  Lemma own_of_names x n : In n (map fst (own_of g x)) ->
+    pseudo_attr n = false /\ str_in n special_class_attrs = false /\ bad_field_name n = false.
+  Proof.
+    unfold own_of. destruct (find_klass g x) as [kx|] eqn:Hk; [|intros []]. destruct (k_is_struct kx); [|intros []].
+    intro Hn. destruct (Hg_members x kx Hk) as [Hp Hb]. unfold own_plain in Hp. apply andb_true_iff in Hp as [Hp _].
+    rewrite forallb_forall in Hp, Hb. specialize (Hp n Hn). specialize (Hb n Hn).
+    apply andb_true_iff in Hp as [P1 P2]. apply negb_true_iff in P1, P2, Hb. repeat split; assumption.
+  Qed.
+
+  (* the cells of the class object that the rest of __new__ reads *)
+  Record cheap (mro : list pystr) (ms : members) (an : list (pystr * pyval)) (h : heap) : Prop := {
+    ch_heap : mheap (kc mro ms :: g) extra' an h ms;
+    ch_ann : h c (s2p "__annotations__") = match ann with [] => None | _ => Some (ref annobj) end;
+    ch_getattr : forall n v, alist_get (v_fields_of_mro (kc mro ms :: g) mro) n = Some v -> h c n = Some v }.
+
+  Lemma good_name_plain n : bad_field_name n = false -> str_in n reserved_keys = false -> pseudo_attr n = false ->
+    str_in n special_class_attrs = false /\ pystr_eqb n (s2p "_fields") = false /\ pystr_eqb n (s2p "__annotations__") = false.
+  Proof.
+    intros Hb Hr Hp. unfold bad_field_name in Hb. apply orb_false_iff in Hb as [Hu _].
+    assert (Hne : forall k, match k with a :: _ => N.eqb a us | [] => false end = true -> pystr_eqb n k = false).
+    { intros k Hk. apply pystr_eqb_neq. intro; subst k. congruence. }
+    split; [|split; apply Hne; reflexivity].
+    unfold special_class_attrs. cbn [str_in existsb].
+    assert (Hps : forall k, pseudo_attr k = true -> pystr_eqb n k = false).
+    { intros k Hk. apply pystr_eqb_neq. intro; subst k. congruence. }
+    rewrite (Hps (isinstance_attr (s2p "StructMeta"))), (Hne n_mro), (Hps (s2p "mro()")), (Hne (s2p "__signature__")),
+            (Hne (s2p "__dict__")), (Hne (s2p "_fields")) by reflexivity. reflexivity.
+  Qed.
+
+  Lemma name_facts n : In n names -> existsb bad_field_name names = false ->
+    forallb (fun n => negb (pseudo_attr n)) names = true ->
+    bad_field_name n = false /\ str_in n reserved_keys = false /\ pseudo_attr n = false.
+  Proof.
+    intros Hn Hb Hp. rewrite forallb_forall in Hp. pose proof Hnames_reserved as Hr. rewrite forallb_forall in Hr.
+    split; [|split; [apply negb_true_iff; apply Hr; exact Hn|apply negb_true_iff; apply Hp; exact Hn]].
+    destruct (bad_field_name n) eqn:E; [|reflexivity].
+    assert (existsb bad_field_name names = true) by (apply existsb_exists; exists n; split; assumption). congruence.
+  Qed.
+
+  Hypothesis Hnames_plain : forallb (fun n => negb (pseudo_attr n)) names = true.
+
+  Lemma new_set_fields h : StructMeta_new__set_attr__fields so X h (v_names names) (ref c) = Ok (heap_set h c (s2p "_fields") (v_names names)).
+  Proof. unfold StructMeta_new__set_attr__fields. rewrite setattr_ref. reflexivity. Qed.
+
+  Lemma good_not_reserved n : bad_field_name n = false -> str_in n reserved_keys = false.
+  Proof.
+    intro Hb. unfold bad_field_name in Hb. apply orb_false_iff in Hb as [Hu _].
+    apply str_in_false. intro Hin. unfold reserved_keys in Hin. cbn [map In] in Hin.
+    repeat (destruct Hin as [<-|Hin]; [discriminate|]). destruct Hin.
+  Qed.
+
+  Lemma class_attr_none k ex n : str_in n special_class_attrs = false -> alist_has (k_own k) n = false -> class_attr k ex n = None.
+  Proof.
+    intros Hs Hh. unfold special_class_attrs in Hs. cbn [str_in existsb] in Hs.
+    repeat (apply orb_false_iff in Hs; destruct Hs as [?H Hs]).
+    unfold class_attr. rewrite H, H0, H1, H2, H3, H4, Hh, andb_false_r. reflexivity.
+  Qed.
+
+  (* after `clsobj._fields = fields` the heap describes the environment with the new class in it *)
+  Lemma created_cheap an h own tail :
+    mheap g extra an h own -> same_members own -> ~ In c tail -> existsb bad_field_name names = false ->
+    cheap (c :: tail) own an (heap_set (created h (c :: tail)) c (s2p "_fields") (v_names names)).
+  Proof.
+    intros M Hs Hnc Hgood. set (mro := c :: tail). set (h2 := heap_set (created h mro) c (s2p "_fields") (v_names names)).
+    assert (Hother : forall o a, o <> c -> h2 o a = h o a).
+    { intros o a Ho. unfold h2. rewrite heap_set_other_obj by exact Ho. apply created_other. exact Ho. }
+    assert (Hcell : forall a, pystr_eqb a (s2p "_fields") = false -> h2 c a = created h mro c a).
+    { intros a Ha. unfold h2. apply heap_set_other_attr. intro; subst a. discriminate. }
+    assert (Hpm : forall n, mobj n <> c) by (intros n E; pose proof (pseudo_member c n) as P; unfold mobj in E; rewrite E in P; congruence).
+    destruct M as [Menv M1 M2 M3 M4 M5 M6 M7 M8 M9 M11].
+    assert (Hgenv : forall o a, o <> c -> genv_heap gd (kc mro own :: g) extra' o a = genv_heap gd g extra o a).
+    { intros o a Ho. unfold genv_heap. rewrite find_klass_kc. unfold extra'.
+      destruct (pystr_eqb c o) eqn:E; [apply pystr_eqb_spec in E; congruence|].
+      rewrite (pystr_eqb_sym o c), E. reflexivity. }
+    assert (Hgc : forall a, genv_heap gd (kc mro own :: g) extra' c a = class_attr (kc mro own) [] a).
+    { intro a. unfold genv_heap. rewrite find_klass_kc, pystr_eqb_refl. unfold extra'. rewrite pystr_eqb_refl. reflexivity. }
+    assert (Hown_cell : forall n, In n names -> h2 c n = Some (ref (mobj n))).
+    { intros n Hn. destruct (name_facts n Hn Hgood Hnames_plain) as [F1 [F2 F3]].
+      destruct (good_name_plain n F1 F2 F3) as [G1 [G2 G3]].
+      rewrite Hcell by exact G2. unfold created. rewrite pystr_eqb_refl, G2, G3.
+      rewrite (class_attr_member (kc mro pre) [] n F3 G1) by (apply alist_has_In; exact Hn). reflexivity. }
+    constructor.
+    - constructor.
+      + destruct Menv as [Hc Hadl Hm]. constructor.
+        * intros o a Ha. destruct (pystr_eqb o c) eqn:Eo.
+          -- apply pystr_eqb_spec in Eo. subst o. rewrite Hgc. apply str_in_In in Ha. unfold env_list in Ha. cbn [In] in Ha.
+             destruct Ha as [<-|[<-|[<-|[<-|[<-|[<-|[<-|[]]]]]]]];
+               try (rewrite Hcell by reflexivity; unfold created; rewrite pystr_eqb_refl;
+                    rewrite (class_attr_names mro pre own) by (symmetry; exact Hs); reflexivity).
+             unfold h2. rewrite heap_set_same. unfold same_members in Hs. rewrite <- Hs. reflexivity.
+          -- assert (o <> c) by (intro; subst; rewrite pystr_eqb_refl in Eo; discriminate).
+             rewrite Hother, Hgenv by assumption. apply Hc. exact Ha.
+        * rewrite Hother, Hgenv by (intro E; symmetry in E; contradiction). exact Hadl.
+        * intros x kx n Hk Hn Hp Hsp. rewrite find_klass_kc in Hk. destruct (pystr_eqb c x) eqn:Ex.
+          -- apply pystr_eqb_spec in Ex. subst x. inversion Hk; subst kx. cbn [kc k_own] in Hn.
+             rewrite Hs in Hn. apply Hown_cell. exact Hn.
+          -- assert (x <> c) by (intro; subst; rewrite pystr_eqb_refl in Ex; discriminate).
+             rewrite Hother by assumption. apply (Hm x kx n Hk Hn Hp Hsp).
+      + intros n m Hg. rewrite Hother by apply Hpm. apply (M1 n m Hg).
+      + intros n m Hg. rewrite Hother by apply Hpm. apply (M2 n m Hg).
+      + intros n v Hg. rewrite Hother by apply Hpm. apply (M3 n v Hg).
+      + intro n. rewrite Hother by apply Hpm. apply M4.
+      + intros n a Ha. rewrite Hother by apply Hpm. apply (M5 n a Ha).
+      + intro n. assert (tyobj n <> c) by (intro E; assert (P : pseudo_attr (tyobj n) = true) by reflexivity; rewrite E in P; congruence).
+        destruct (M6 n) as [A B]. split; [rewrite Hother by assumption; exact A|]. intros a Ha. rewrite Hother by assumption. apply (B a Ha).
+      + assert (annobj <> c) by (intro E; assert (P : pseudo_attr annobj = true) by reflexivity; rewrite E in P; congruence).
+        destruct M7 as [A B]. split; [rewrite Hother by assumption; exact A|]. intros a Ha. rewrite Hother by assumption. apply (B a Ha).
+      + rewrite Hother by (intro E; symmetry in E; contradiction). exact M8.
+      + rewrite Hother by (intro E; symmetry in E; contradiction). exact M9.
+      + intros x kx n m Hk Hin. assert (member_obj x n <> c) by (intro E; pose proof (pseudo_member x n) as P; rewrite E in P; congruence).
+        destruct (M11 x kx n m Hk Hin) as [A B]. split; [rewrite Hother by assumption; exact A|]. intros v Hv. rewrite Hother by assumption. apply (B v Hv).
+    - rewrite Hcell by reflexivity. unfold created. rewrite pystr_eqb_refl. reflexivity.
+    - intros n v Hg. unfold v_fields_of_mro in Hg. unfold mro in Hg. rewrite (mro_fold_cons _ (c :: tail) own tail Hnc) in Hg.
+      assert (EO : map (fun nm : pystr * member => (fst nm, ref (member_obj c (fst nm)))) own = map (fun k => (k, ref (mobj k))) names).
+      { rewrite <- Hs, map_map. reflexivity. }
+      rewrite EO in Hg. rewrite alist_merge_get in Hg by (rewrite map_fst_uniform; exact Hnd).
+      rewrite alist_get_uniform in Hg. destruct (str_in n names) eqn:En.
+      + inversion Hg; subst v. apply Hown_cell. apply str_in_In. exact En.
+      + assert (Hk : In n (map fst (mro_fold (fun c0 nm => ref (member_obj c0 (fst nm))) g tail))) by (apply alist_get_In_fst in Hg; exact Hg).
+        destruct (mro_fold_keys _ g tail n Hk) as [x [_ Hx]]. destruct (own_of_names x n Hx) as [P1 [P2 P3]].
+        destruct (good_name_plain n P3 (good_not_reserved n P3) P1) as [G1 [G2 G3]].
+        rewrite Hcell by exact G2. unfold created. rewrite pystr_eqb_refl, G2, G3.
+        rewrite class_attr_none; [|exact G1|].
+        * rewrite P1. cbn [negb tl_str]. exact Hg.
+        * cbn [kc k_own]. rewrite alist_has_str_in. exact En.
   Qed.
 End NewIsDefine.
